@@ -583,8 +583,8 @@ inline std::vector<CorpusItem> corpus(size_t maxFile) {
   int i = 0;
   for (auto& t : generatedTrees()) {
     refjson::PrintOpt po;
-    po.spelling = (i % 2) ? 2 : 0;  // every other document with \uXXXX escapes
-    po.layout = (i % 3 == 2) ? 1 : 0;
+    po.spelling = (i == 1) ? 2 : 0;  // one document with \uXXXX escapes
+    po.layout = (i == 2) ? 1 : 0;    // one with a space at every whitespace position
     r.push_back({false, "gen" + std::to_string(i) + ".json", refjson::printDoc(t, po)});
     std::function<void(MValue&)> strip = [&](MValue& x) { if (x.isNumber()) x.s.clear(); for (auto& e : x.a) strip(e); for (auto& kv : x.o) strip(kv.second); };
     MValue m = t;
@@ -617,12 +617,15 @@ inline void run(Ctx& C) {
   const int jsonStar = optI("json-star", T ? 4 : 3);     // star up to this length
   const int jsonRam = optI("json-ram", T ? 5 : 4);       // kinds cstr+sized up to this length (the deepest level)
   const int mpFull = optI("mp-full", 2);                 // MessagePack: full product up to this length
+  const int mpStar = std::max(mpFull, optI("mp-star", mpFull));  // star (all strings) up to this length
   const int mpStar3 = optI("mp-star3", T ? 1 : 0);       // 1: star on header-led 3-byte strings, 2: on all 2^24
   const int mpRam3 = optI("mp-ram3", T ? 2 : 1);         // kind sized on 3-byte strings: 1 header-led, 2 all 2^24
   const int mpRam4 = optI("mp-ram4", T ? 1 : 0);         // kind sized on header-led 4-byte strings (deepest level)
   const int corpusMax = optI("corpus-max", T ? 4096 : 256);
   const int corpusFull = optI("corpus-full", T ? 64 : 24);
   const int corpusStar = optI("corpus-star", T ? 256 : 64);
+  const int corpusFullMp = optI("corpus-full-mp", corpusFull);  // same threshold for MessagePack items (a build option that
+                                                                // only touches the JSON parser may lower it)
   Plan plan;
   plan.starZt = optI("star-zt", 1) != 0;
 
@@ -728,15 +731,28 @@ inline void run(Ctx& C) {
     }
   };
 
+  std::vector<CorpusItem> items;
+  if (corpusMax > 0) items = corpus(size_t(corpusMax));
+  {
+    std::string only = C.opt("corpus-only");  // debugging aid: keep the items whose name contains this text
+    if (!only.empty()) {
+      std::vector<CorpusItem> kept;
+      for (auto& it : items) if (it.name.find(only) != std::string::npos) kept.push_back(it);
+      items = kept;
+    }
+  }
+  if (C.flag("list-corpus")) {
+    for (auto& it : items) printf("%-8s %-28s %5zu  %s\n", it.mp ? "msgpack" : "json", it.name.c_str(), it.bytes.size(), vis(it.bytes).substr(0, 100).c_str());
+    return;
+  }
   // ---- order: cheapest complete levels first; the deepest level of each format last (first thing lost at the deadline)
   for (int len = 0; len <= jsonFull; len++) jsonLevel(len, "json-full");
   for (int len = 0; len <= mpFull; len++) mpLevel(len, false, FULL, "msgpack-full");
-  std::vector<CorpusItem> items;
-  if (corpusMax > 0) items = corpus(size_t(corpusMax));
+  for (int len = mpFull + 1; len <= mpStar; len++) mpLevel(len, false, STAR, "msgpack-star");
   size_t nFullItems = 0, nStarItems = 0, nRamItems = 0, corpusBytes = 0;
   for (int pass = 0; pass < 3; pass++) {
     for (auto& it : items) {
-      Shape sh = it.bytes.size() <= size_t(corpusFull) ? FULL : it.bytes.size() <= size_t(corpusStar) ? STAR : RAM;
+      Shape sh = it.bytes.size() <= size_t(it.mp ? corpusFullMp : corpusFull) ? FULL : it.bytes.size() <= size_t(corpusStar) ? STAR : RAM;
       if (int(sh) != pass) continue;
       (sh == FULL ? nFullItems : sh == STAR ? nStarItems : nRamItems)++;
       corpusBytes += it.bytes.size();
@@ -744,7 +760,7 @@ inline void run(Ctx& C) {
     }
   }
   for (int len = jsonFull + 1; len <= jsonStar; len++) jsonLevel(len, "json-star");
-  if (mpFull < 3) {
+  if (mpStar < 3) {
     if (mpStar3 == 2) mpLevel(3, false, STAR, "msgpack-3-star");
     else if (mpStar3 == 1) mpLevel(3, true, STAR, "msgpack-3-star(header-led)");
     if (mpRam3 == 2 && mpStar3 == 1) mpLevel(3, false, RAM, "msgpack-3-sized(not header-led)", true);
@@ -773,12 +789,12 @@ inline void run(Ctx& C) {
                   std::to_string(jsonFull) + " full product 12 kinds x 6 limits x 14 filters, <= " + std::to_string(jsonStar) +
                   " star (12 kinds at limit 10/no filter; every limit and every filter with kinds sized" + (plan.starZt ? "+cstr" : "") + "), <= " +
                   std::to_string(jsonRam) + " kinds cstr+sized; MessagePack all byte strings of length <= " + std::to_string(mpFull) +
-                  " full product 8 bounded kinds x 6 x 14; 3-byte strings: " +
+                  " full product 8 bounded kinds x 6 x 14, <= " + std::to_string(mpStar) + " star; 3-byte strings: " +
                   (mpStar3 == 2 ? "all 2^24 star" : mpStar3 == 1 ? "header-led star" : "no star") + ", kind sized on " +
                   (mpRam3 == 2 ? "all 2^24" : mpRam3 == 1 ? "header-led" : "none") + "; header-led 4-byte strings kind sized: " + (mpRam4 ? "yes" : "no") +
                   "; corpus (" + std::to_string(items.size()) + " items, " + std::to_string(corpusBytes) + " bytes: fuzzing seeds <= " + std::to_string(corpusMax) +
                   " bytes + 12 generated) itself + every truncation + every single-byte substitution: items <= " + std::to_string(corpusFull) +
-                  " bytes full product (" + std::to_string(nFullItems) + "), <= " + std::to_string(corpusStar) + " star (" + std::to_string(nStarItems) +
+                  " bytes (MessagePack items: " + std::to_string(corpusFullMp) + ") full product (" + std::to_string(nFullItems) + "), <= " + std::to_string(corpusStar) + " star (" + std::to_string(nStarItems) +
                   "), longer kinds cstr+sized (" + std::to_string(nRamItems) + ")";
   C.bound(b);
   if (!cut.empty())
